@@ -238,6 +238,15 @@ def resource_of(idx, r):
         elif m in ("create_ret", "batch_create_ret", "partial_update_ret"):
             b = m[:-4]
             ms.append(method("REST_METHOD", b, onEntity=coll and b in ENTITY_METHODS, returnEntity=True))
+        elif m == "finder_late":
+            ms.append(method("FINDER", "f4", params=[F("title", P("string")), F("zone", P("string"), optional=True), F("a", P("int32"), optional=True)],
+                             isPagingSupported=True, **{"return": R("Ent")}))
+        elif m in ("get_params", "batch_get_params", "batch_update_params"):
+            b = m[:-7]
+            ps = {"get_params": [F("view", P("string"), optional=True)],
+                  "batch_get_params": [F("fields", P("string"), optional=True), F("viewer", P("string"), optional=True)],
+                  "batch_update_params": [F("fields", P("string"), optional=True)]}[m]
+            ms.append(method("REST_METHOD", b, onEntity=coll and b in ENTITY_METHODS, params=ps))
         elif m == "get_all_paged":
             ms.append(method("REST_METHOD", "get_all", isPagingSupported=True))
         elif m == "finder":
